@@ -195,6 +195,64 @@ func runDeterminism(e *Engine, res *checkResult, timeout int, two bool, work str
 				}
 			}
 			obls = append(obls, mk("maprange/no-emission/"+id, "loop body emits neither commands nor warnings", emits == "", m.pos, emits))
+			// (c) no read-after-write across iterations through a map: a map that the
+			// body writes may be read in the body only at the iteration key (for the
+			// ranged map itself) or at a key the body also writes
+			cross := ""
+			iterKeys := map[ssa.Value]bool{}
+			for b := range lp.body {
+				for _, ins := range b.Instrs {
+					if ex, ok := ins.(*ssa.Extract); ok && ex.Index == 1 {
+						if n, ok := ex.Tuple.(*ssa.Next); ok && n.Iter == ssa.Value(m.rng) {
+							iterKeys[ex] = true
+						}
+					}
+				}
+			}
+			written := map[ssa.Value]map[ssa.Value]bool{}
+			for b := range lp.body {
+				for _, ins := range b.Instrs {
+					switch x := ins.(type) {
+					case *ssa.MapUpdate:
+						if written[x.Map] == nil {
+							written[x.Map] = map[ssa.Value]bool{}
+						}
+						written[x.Map][x.Key] = true
+					case ssa.CallInstruction:
+						if bi, ok := x.Common().Value.(*ssa.Builtin); ok && bi.Name() == "delete" && len(x.Common().Args) == 2 {
+							mm := x.Common().Args[0]
+							if written[mm] == nil {
+								written[mm] = map[ssa.Value]bool{}
+							}
+							written[mm][x.Common().Args[1]] = true
+						}
+					}
+				}
+			}
+			for b := range lp.body {
+				for _, ins := range b.Instrs {
+					lk, ok := ins.(*ssa.Lookup)
+					if !ok || written[lk.X] == nil {
+						continue
+					}
+					if _, isMap := lk.X.Type().Underlying().(*types.Map); !isMap {
+						continue
+					}
+					okKey := written[lk.X][lk.Index] || (lk.X == m.rng.X && iterKeys[lk.Index])
+					if c, isConst := lk.Index.(*ssa.Const); isConst && !okKey {
+						// a constant key: fine only if the same constant is written
+						for wk := range written[lk.X] {
+							if wc, ok := wk.(*ssa.Const); ok && wc.Value != nil && c.Value != nil && wc.Value.ExactString() == c.Value.ExactString() {
+								okKey = true
+							}
+						}
+					}
+					if !okKey {
+						cross = fmt.Sprintf("%s reads a map that the loop body writes, at a key that is neither the iteration key nor a written key", e.lineText(lk.Pos()))
+					}
+				}
+			}
+			obls = append(obls, mk("maprange/no-cross-iteration-read/"+id, "loop body does not read what another iteration may have written", cross == "", m.pos, cross))
 		}
 	}
 	for _, r := range e.cs.MapRanges {
